@@ -74,8 +74,9 @@ CLAIMED = {
              "well-formedness of every element), plus completeness over ring sizes / signer positions and rejection of "
              "every single-component substitution.",
         note="Signing keys come from key generation under a per-case DRBG seed; messages, signatures and public keys are "
-             "untrusted. Part B trusts pc_map / g1 / g2 arithmetic (decided by C03, C04, C11, C12). One known finding: "
-             "public-key elements are not validated by several pairing verifiers (low severity, no patch).",
+             "untrusted. Part B trusts pc_map / g1 / g2 arithmetic (decided by C03, C04, C11, C12). Two known findings: "
+             "public-key elements are not validated by several pairing verifiers, and four verifiers accept a G1 signature "
+             "element plus a cofactor-order point on BLS12-381 (both low severity, no patch).",
         tech=PBT + "independent reference verifiers (differential, both directions) and re-evaluated verification equations; mutation catalogue"),
     "C06": dict(
         text="Two generated searches. Part A (RSA encryption with OAEP / PKCS#1 v1.5 / BASIC, Rabin, Benaloh, Paillier, "
@@ -221,7 +222,10 @@ CLAIMED = {
              "threads under TSan.",
         note="Interleavings are owned at library-call granularity; instruction-level interleavings are sampled by the "
              "TSan mode, not enumerated. return/goto out of a protected block and throws inside FINALLY are not generated "
-             "(documented as forbidden / undocumented).",
+             "(documented as forbidden / undocumented); every check's runner additionally asserts after each library call "
+             "that the handler chain is what it was before the call. The selection alphabet holds named curves / fields / "
+             "binary curves and moduli installed without identifier (fp_prime_set_dense). One known finding: descriptive "
+             "state (fp_param_get, generation parameter) stays stale after such a direct installation.",
         tech="model-based property testing: generated programs / histories / schedules against an executable state-machine model and fresh-process differentials"),
     "C20": dict(
         text="Metamorphic search on -fsanitize-coverage=trace-pc builds: for batches of secret scalars of ONE public bit "
